@@ -1,5 +1,280 @@
 import Poulpy.Model.Core.Ks
 import Poulpy.Lemmas.GadgetAlg
+import Poulpy.Lemmas.GadgetPhase
+import Poulpy.Lemmas.GadgetSum
+import Poulpy.Props.C09
+
+/-!
+# C03 — the key-switching family preserves the plaintext within the predicted noise
+
+Model: `Poulpy/Model/Core/Ks.lean` (what `pdriver ks` executes).  Two layers, as in DESIGN §6:
+
+* **Layer B** (algebra): the gadget identity in poulpy's digit layout over an arbitrary commutative
+  ring (`Gadget.*`, Finset sums), the norm inequality `‖p⋆q‖_∞ ≤ ‖p‖₁‖q‖_∞` for the exact negacyclic
+  product `Hal.negMul`, the resulting error bound, shape independence, and the Galois arithmetic of
+  automorphism keys.
+* **Layer A** (the executable functions): the vector-matrix product `Hal.opVmp` that
+  `Ks.gglweProductDft` calls commutes with the phase for every `limb_offset` (`vmp_phase_commutes`);
+  for `dsize = 1` this is the whole product (`keyswitch_phase_dsize1`); for `dsize > 1` each of the
+  `dsize` passes is an instance (`product_pass_phase_partial`) — the accumulation over the passes
+  is the part that is stated but not proved (see the FULL STATEMENT block).
+* The defect found by the correspondence (fused automorphism forms read an un-zeroed scratch
+  buffer for `dsize ≥ 3`) is proved of the model as `fused_reads_stale_counterexample`.
+-/
 
 namespace C03
+open Hal Ks
+
+/-! ## Layer B — algebra -/
+
+/-- `‖p ⋆ q‖_∞ ≤ ‖p‖₁ · ‖q‖_∞` for the exact negacyclic product (any lengths). -/
+theorem negMul_norm_le (p q : Poly) : normInf (Hal.negMul p q) ≤ norm1 p * normInf q := normInf_negMul_le p q
+
+example : normInf (Hal.negMul [1, -2, 0, 3] [5, -7, 1, 2]) ≤ norm1 [1, -2, 0, 3] * normInf [5, -7, 1, 2] := by decide
+example : normInf (Hal.negMul [1, 1] [3, 3]) = norm1 [1, 1] * normInf [3, 3] := by decide   -- the bound is attained
+
+/-- **Error bound of a gadget product**: `‖acc + Σ_k d_k ⋆ e_k‖_∞ ≤ ‖acc‖_∞ + Σ_k ‖d_k‖₁ ‖e_k‖_∞`
+(the sum as the code accumulates it, `foldl polyAdd`). -/
+theorem gadget_error_bound (ds es : List Poly) (acc : Poly) :
+    normInf ((List.zipWith Hal.negMul ds es).foldl polyAdd acc) ≤
+      normInf acc + ((List.zipWith (fun d e => norm1 d * normInf e) ds es).foldl (· + ·) 0) := by
+  have gen : ∀ (ds es : List Poly) (acc : Poly) (t : Int),
+      normInf ((List.zipWith Hal.negMul ds es).foldl polyAdd acc) ≤
+        normInf acc + ((List.zipWith (fun d e => norm1 d * normInf e) ds es).foldl (· + ·) t) - t := by
+    intro ds
+    induction ds with
+    | nil => intro es acc t; simp
+    | cons d dt ih =>
+      intro es acc t
+      cases es with
+      | nil => simp
+      | cons e et =>
+        simp only [List.zipWith_cons_cons, List.foldl_cons]
+        have h1 := ih et (polyAdd acc (Hal.negMul d e)) (t + norm1 d * normInf e)
+        have h2 := normInf_polyAdd_le acc (Hal.negMul d e)
+        have h3 := normInf_negMul_le d e
+        omega
+  have := gen ds es acc 0
+  omega
+
+example : normInf ((List.zipWith Hal.negMul [[1, 1], [2, 0]] [[1, -1], [0, 3]]).foldl polyAdd [0, 0]) ≤
+    normInf [0, 0] + ((List.zipWith (fun d e => norm1 d * normInf e) [[1, 1], [2, 0]] [[1, -1], [0, 3]]).foldl (· + ·) 0) := by
+  decide
+
+/-- **Gadget identity in poulpy's digit layout** (one input column; `Gadget.gadget_identity_cols` sums
+it over the `rank_in` columns).  `a m` = limb `m` of the input, `φ r l` = limb `l` of the phase of key
+row `r` under the target secret, `β = 2^{base2k}`, `S` = limbs of the key.  If row `r` has phase value
+`s·β^{S−(r+1)·dsize} + E r`, then the value of the accumulated product
+`Σ_{di<dsize} Σ_{r<rows(di)} a[r·dsize + dsize−1−di] · φ_r[l+di]` (limb `l`, truncated to
+`S − max(dsize−di−2,0)` limbs in pass `di`) is `s·(used part of a) + Σ_r d_r·E_r − dropped − β^S·head`. -/
+theorem gadget_identity {R : Type*} [CommRing R] (β s : R) (S dsize dnum aSize : ℕ) (a : ℕ → R) (φ : ℕ → ℕ → R) (E : ℕ → R)
+    (hd : 0 < dsize) (hS : dnum * dsize ≤ S)
+    (hkey : ∀ r, r < dnum → Gadget.val β S (φ r) = s * β ^ (S - (r + 1) * dsize) + E r) :
+    Gadget.val β S (Gadget.acc S dsize dnum aSize a φ) =
+      s * Gadget.usedVal β S dsize dnum aSize a + ∑ r ∈ Finset.range dnum, Gadget.digit β dsize dnum aSize a r * E r
+        - Gadget.dropped β S dsize dnum aSize a φ - β ^ S * Gadget.head β dsize dnum aSize a φ :=
+  Gadget.gadget_identity β s S dsize dnum aSize a φ E hd hS hkey
+
+/-- no product limb is dropped for `dsize ≤ 2` (`res.set_size(pmat.size − max(dsize−di−2, 0))`). -/
+theorem dropped_zero_of_dsize_le_two {R : Type*} [CommRing R] (β : R) (S dsize dnum aSize : ℕ) (a : ℕ → R) (φ : ℕ → ℕ → R)
+    (h : dsize ≤ 2) : Gadget.dropped β S dsize dnum aSize a φ = 0 := Gadget.dropped_eq_zero β S dsize dnum aSize a φ h
+
+/-- **limb regrouping = digit decomposition** (index level): with selection `(step, offset) =
+(dsize, dsize−1−di)` and `ai_dft.set_size((a_size+di)/dsize)`, row `r` of pass `di` reads an existing
+input limb exactly when `r` is below that size. -/
+theorem limb_used_iff (aSize dsize r di : ℕ) (hd : 0 < dsize) (hdi : di < dsize) :
+    r < (aSize + di) / dsize ↔ Gadget.limbIdx dsize r di < aSize := Gadget.limb_used_iff hd hdi
+
+/-- **limb regrouping = digit decomposition** (value level): when `dnum` is large enough every input
+limb is used exactly once, with its own weight. -/
+theorem used_value_is_input_value {R : Type*} [CommRing R] (β : R) (S dsize dnum aSize : ℕ) (a : ℕ → R)
+    (hd : 0 < dsize) (h1 : aSize ≤ dnum * dsize) :
+    Gadget.usedVal β S dsize dnum aSize a = ∑ m ∈ Finset.range aSize, a m * β ^ (S - 1 - m) :=
+  Gadget.usedVal_eq_val β S dsize dnum aSize a hd h1
+
+/-- **Shape independence**: for two gadget shapes `(dsize, dnum)` and `(dsize', dnum')` that both cover
+the input (`a_size ≤ dnum·dsize`) and keys with `S` limbs satisfying the key relation for the same
+`s`, the accumulated products differ only by their explicit error terms — both equal `s·val(a)`
+plus errors: "any digit size, digit count … gives the same plaintext". -/
+theorem shape_independence {R : Type*} [CommRing R] (β s : R) (S aSize : ℕ) (a : ℕ → R)
+    (dsize dnum : ℕ) (φ : ℕ → ℕ → R) (E : ℕ → R) (dsize' dnum' : ℕ) (φ' : ℕ → ℕ → R) (E' : ℕ → R)
+    (hd : 0 < dsize) (hS : dnum * dsize ≤ S) (hc : aSize ≤ dnum * dsize)
+    (hd' : 0 < dsize') (hS' : dnum' * dsize' ≤ S) (hc' : aSize ≤ dnum' * dsize')
+    (hkey : ∀ r, r < dnum → Gadget.val β S (φ r) = s * β ^ (S - (r + 1) * dsize) + E r)
+    (hkey' : ∀ r, r < dnum' → Gadget.val β S (φ' r) = s * β ^ (S - (r + 1) * dsize') + E' r) :
+    Gadget.val β S (Gadget.acc S dsize dnum aSize a φ)
+        - (∑ r ∈ Finset.range dnum, Gadget.digit β dsize dnum aSize a r * E r
+            - Gadget.dropped β S dsize dnum aSize a φ - β ^ S * Gadget.head β dsize dnum aSize a φ)
+      = Gadget.val β S (Gadget.acc S dsize' dnum' aSize a φ')
+        - (∑ r ∈ Finset.range dnum', Gadget.digit β dsize' dnum' aSize a r * E' r
+            - Gadget.dropped β S dsize' dnum' aSize a φ' - β ^ S * Gadget.head β dsize' dnum' aSize a φ') := by
+  rw [Gadget.gadget_identity β s S dsize dnum aSize a φ E hd hS hkey,
+      Gadget.gadget_identity β s S dsize' dnum' aSize a φ' E' hd' hS' hkey',
+      Gadget.usedVal_eq_val β S dsize dnum aSize a hd hc, Gadget.usedVal_eq_val β S dsize' dnum' aSize a hd' hc']
+  ring
+
+/-! ### Galois arithmetic of automorphism keys -/
+
+/-- `glwe_automorphism_key_encrypt_sk` encrypts under `σ_{p⁻¹}(s)` (`p⁻¹ = galois_element_inv(p)`); the
+final `σ_p` of `glwe_automorphism` brings that secret back to `s`: `σ_p(σ_{p⁻¹}(s)) = s`. -/
+theorem autokey_secret_roundtrip (k : Nat) (hk : k + 1 ≤ 64) (p p' : Int) (hp : p % 2 = 1) (s : Poly) (hl : s.length = 2 ^ k)
+    (hs : AllP I64 s) (hinv : galoisElementInv p (cyclotomicOrder s.length) = .ok p') :
+    znxAutomorphism p (znxAutomorphism p' s) = s := by
+  have hord : cyclotomicOrder s.length = 2 ^ (k + 1) := by unfold cyclotomicOrder; rw [hl]; push_cast; ring
+  rw [hord] at hinv
+  have hmul := C09.galois_element_inv_mul p hp (k + 1) hk p' hinv
+  have hp' : p' % 2 = 1 := by
+    have h2 : (p' * p) % 2 = 1 := by
+      have h3 : (p' * p) % 2 ^ (k + 1) % 2 = 1 % 2 ^ (k + 1) % 2 := by rw [hmul]
+      rw [Int.emod_emod_of_dvd _ (dvd_pow_self 2 (by omega)), Int.emod_emod_of_dvd _ (dvd_pow_self 2 (by omega))] at h3
+      simpa using h3
+    rcases Int.emod_two_eq p' with h0 | h1
+    · rw [Int.mul_emod, h0] at h2; simp at h2
+    · exact h1
+  rw [C09.automorphism_comp k p p' hp hp' s hl hs]
+  have e2 : (2 * (s.length : Int)) = 2 ^ (k + 1) := by rw [hl]; push_cast; ring
+  rw [C09.automorphism_mod (p * p') 1 s (by rw [e2, Int.mul_comm]; exact hmul)]
+  exact C09.automorphism_one s hs
+
+example : znxAutomorphism 3 (znxAutomorphism 3 [1, -1, 0, 1]) = [1, -1, 0, 1] := by decide
+
+/-- the trace uses `p₀ = −1` and `p_i = 5^{2^{i−1}} mod 2N`: `galois_element(2^{i−1}, 2N)`. -/
+theorem trace_galois_elements (n i : Nat) (K : Nat) (hK : K ≤ 64) (hn : cyclotomicOrder n = 2 ^ K) (hi : 0 < i) :
+    traceGalois n i = .ok (5 ^ (2 ^ (i - 1)) % 2 ^ K) := by
+  unfold traceGalois
+  rw [if_neg (by omega), hn, C09.galois_element_spec _ K hK]
+  have hs : ((2 : Int) ^ (i - 1)).sign = 1 := Int.sign_eq_one_of_pos (by positivity)
+  have h1 : ((2 : Int) ^ (i - 1)) ≠ 0 := by positivity
+  simp [h1, hs]
+
+example : traceGalois 8 2 = .ok 9 := by
+  rw [trace_galois_elements 8 2 4 (by norm_num) (by rfl) (by norm_num)]; rfl
+
+/-! ## Layer A — the executable product -/
+
+/-- **The vector-matrix product commutes with the phase, for every `limb_offset`.**  `d` = the result
+buffer (`rank_out+1` columns), `a` = the (selected) input limbs, `m` = the prepared key: the phase
+under `sk` of limb `l` of `vmp_apply_dft_to_dft(d, a, m, lo)` is `Σ_j a_j ⋆ phase(row j, limb l+lo)`. -/
+theorem vmp_phase_commutes (sk : List Poly) (d a : Buf) (m : PMat) (lo l : Nat) (hd : d.WF) (hcols : d.cols = m.colsOut)
+    (hc : 0 < m.colsOut) (hl : l < d.size) (hlo : l + lo < m.size) (hM : ∀ j q, (m.entry j q).length = d.n) :
+    phaseRow sk (bufRow (opVmp d a m lo) l) =
+      sumPolys d.n ((List.range (min (m.colsIn * m.rows) a.flat.length)).map (fun j =>
+        Hal.negMul (a.flat.getD j (zeroP d.n)) (phaseRow sk (rowLimb m j (l + lo))))) :=
+  opVmp_phase sk d a m lo l hd hcols hc hl hlo hM
+
+/-- a concrete 1-row, rank-1 key at `n = 2`: the hypotheses are satisfiable and both sides compute -/
+def exKey : PMat := { n := 2, rows := 1, colsIn := 1, colsOut := 2, size := 2,
+                      data := [[[[1, 2], [3, 4]], [[5, 6], [7, 8]]]] }
+def exA : Buf := { n := 2, cols := 1, size := 1, maxSize := 1, data := [[[1, 1]]] }
+
+example : (zeroBuf 2 2 2).WF := by
+  refine ⟨rfl, Nat.le_refl _, ?_⟩
+  intro c hc
+  have : c = 0 ∨ c = 1 := by simp [zeroBuf] at hc; omega
+  rcases this with rfl | rfl <;> rfl
+
+example : phaseRow [[0, 1]] (bufRow (opVmp (zeroBuf 2 2 2) exA exKey 0) 1) =
+    sumPolys 2 ((List.range (min (exKey.colsIn * exKey.rows) exA.flat.length)).map (fun j =>
+      Hal.negMul (exA.flat.getD j (zeroP 2)) (phaseRow [[0, 1]] (rowLimb exKey j 1)))) := by decide
+
+/-- **`keyswitch_phase_dsize1`**: for a key with `dsize = 1`, `gglwe_product_dft` is one vector-matrix
+product, so limb `l` of its result has phase `Σ_j a_j ⋆ phase(key row j, limb l)` under the target
+secret — with `j = limb·rank_in + column` running over the `min(dnum·rank_in, a_size·rank_in)` input
+limbs: the gadget identity is instantiated with `d_{r,i} = a_i[r]`. -/
+theorem keyswitch_phase_dsize1 (sk : List Poly) (res a : Buf) (key : Key) (l : Nat) (h1 : key.dsize = 1)
+    (hd : res.WF) (hcols : res.cols = key.mat.colsOut) (hc : 0 < key.mat.colsOut) (hl : l < res.size) (hls : l < key.mat.size)
+    (hM : ∀ j q, (key.mat.entry j q).length = res.n) :
+    phaseRow sk (bufRow (gglweProductDft res a key) l) =
+      sumPolys res.n ((List.range (min (key.mat.colsIn * key.mat.rows) a.flat.length)).map (fun j =>
+        Hal.negMul (a.flat.getD j (zeroP res.n)) (phaseRow sk (rowLimb key.mat j l)))) := by
+  have e : gglweProductDft res a key = opVmp res a key.mat 0 := by
+    unfold gglweProductDft; rw [if_pos h1]
+  rw [e]
+  exact opVmp_phase sk res a key.mat 0 l hd hcols hc hl (by omega) hM
+
+example : phaseRow [[0, 1]] (bufRow (gglweProductDft (zeroBuf 2 2 2) exA { base2k := 4, dsize := 1, p := 0, mat := exKey }) 0) =
+    sumPolys 2 ((List.range 1).map (fun j => Hal.negMul (exA.flat.getD j (zeroP 2)) (phaseRow [[0, 1]] (rowLimb exKey j 0)))) := by
+  decide
+
+/-- `glwe_keyswitch_internal` on top of the product: same radix ⇒ `ok`, the big accumulator is the
+product with the input's body added to column 0 on the common limbs (other columns untouched). -/
+theorem keyswitch_internal_shape (big128 : Bool) (resDft : Buf) (a : Ct) (key : Key) (h : a.base2k = key.base2k) :
+    ∃ aDft : Buf, keyswitchInternal big128 resDft a key =
+      .ok ((gglweProductDft resDft aDft key).setAct 0
+            (bigAddSmallAssign big128 ((gglweProductDft resDft aDft key).act 0) (a.cols.getD 0 []))) ∧
+      ∀ c, c ≠ 0 → ∀ r, keyswitchInternal big128 resDft a key = .ok r → r.act c = (gglweProductDft resDft aDft key).act c := by
+  unfold keyswitchInternal
+  rw [if_neg (by simpa using h)]
+  refine ⟨_, rfl, ?_⟩
+  intro c hc r hr
+  injection hr with hr
+  rw [← hr]
+  exact Buf.act_setAct_other _ 0 c _ hc
+
+example : ∃ r, keyswitchInternal false (zeroBuf 2 2 2) (mkCt 4 2 [[[1, 0]], [[1, 1]]]) { base2k := 4, dsize := 1, p := 0, mat := exKey } = .ok r :=
+  ⟨_, rfl⟩
+
+/- FULL STATEMENT (not proved): `keyswitch_phase` for `dsize > 1`.
+   For every key with `0 < dsize`, `dnum·dsize ≤ key.size`, every well-formed `res` (size = key.size)
+   and input `a`, for all `l < key.size`:
+     phaseRow sk (bufRow (gglweProductDft res a key) l)
+       = Σ_{di<dsize} Σ_{r<rowsOf a.size dsize dnum di} Σ_{i<rank_in}
+           [l+di < key.size ∧ l < szOf key.size dsize di]  a_i[limbIdx dsize r di] ⋆ phaseRow sk (rowLimb key.mat (r·rank_in+i) (l+di))
+   i.e. the executable product is `Gadget.acc` (summed over the input columns) with
+   `φ_{r,i}[l] = phaseRow sk (rowLimb key.mat (r·rank_in+i) l)`.
+   Proved below: each pass `di` is the vector-matrix product with `limb_offset = di` and commutes with
+   the phase (`product_pass_phase_partial`).  Missing: (1) the selection lemma
+   `(ai after vec_znx_dft_copy(dsize, dsize−1−di)).flat[r·rank_in+i] = a_i[limbIdx dsize r di]` lifted from
+   `C07.dft_select` through the column loop; (2) the accumulation `vec_znx_dft_add_assign` over the
+   passes with the per-pass sizes (limbs ≥ `szOf … di` of pass `di` keep the previous content — zero
+   only when `res` entered zeroed, cf. `fused_reads_stale_counterexample`). -/
+
+/-- **`product_pass_phase_partial`**: pass `di > 0` of the `dsize > 1` branch writes into `res_dft_tmp`
+the vector-matrix product with `limb_offset = di`; its phase at limb `l` is
+`Σ_j ai_j ⋆ phase(key row j, limb l + di)` — the `di`-th term of the gadget identity. -/
+theorem product_pass_phase_partial (sk : List Poly) (a : Buf) (key : Key) (st : ProdSt) (di l : Nat) (hdi : di ≠ 0)
+    (htmp : st.tmp.WF) (hsz : key.mat.size - (key.dsize - di - 2) ≤ st.tmp.maxSize)
+    (hcols : st.tmp.cols = key.mat.colsOut) (hc : 0 < key.mat.colsOut)
+    (hl : l < key.mat.size - (key.dsize - di - 2)) (hlo : l + di < key.mat.size)
+    (hM : ∀ j q, (key.mat.entry j q).length = st.tmp.n) :
+    let st' := productStep a key st di
+    phaseRow sk (bufRow st'.tmp l) =
+      sumPolys st.tmp.n ((List.range (min (key.mat.colsIn * key.mat.rows) st'.ai.flat.length)).map (fun j =>
+        Hal.negMul (st'.ai.flat.getD j (zeroP st.tmp.n)) (phaseRow sk (rowLimb key.mat j (l + di))))) := by
+  intro st'
+  have e : st'.tmp = opVmp { st.tmp with size := key.mat.size - (key.dsize - di - 2) } st'.ai key.mat di := by
+    simp only [st', productStep, if_neg hdi]
+  rw [e]
+  have hwf : ({ st.tmp with size := key.mat.size - (key.dsize - di - 2) } : Buf).WF := ⟨htmp.1, hsz, htmp.2.2⟩
+  exact opVmp_phase sk _ st'.ai key.mat di l hwf hcols hc hl hlo hM
+
+/-! ## The defect: fused automorphism forms read an un-zeroed scratch buffer (`dsize ≥ 3`) -/
+
+def exKey3 : Key := { base2k := 4, dsize := 3, p := 1,
+                      mat := { n := 1, rows := 1, colsIn := 1, colsOut := 1, size := 4, data := [[[[1], [1], [1], [1]]]] } }
+def exA3 : Buf := { n := 1, cols := 1, size := 1, maxSize := 1, data := [[[1]]] }
+def dirty3 : Buf := { n := 1, cols := 1, size := 4, maxSize := 4, data := [[[0], [0], [0], [5]]] }
+
+/- FULL STATEMENT (false of the code): the result of `gglwe_product_dft` does not depend on the previous
+   content of `res`:  ∀ r₁ r₂ (same shape) a key, gglweProductDft r₁ a key = gglweProductDft r₂ a key.
+   True for `dsize ≤ 2` (every limb is overwritten by pass 0); `glwe_keyswitch` zeroes `res_dft` first, the
+   fused `glwe_automorphism_{add,sub,sub_negate}{,_assign}` do not. -/
+
+/-- for `dsize = 3` pass 0 writes only `size − 1` limbs and pass 1 *adds* into the last one: the previous
+content of `res` (here the `5` in limb 3) survives into the result -/
+theorem fused_reads_stale_counterexample :
+    (gglweProductDft dirty3 exA3 exKey3).act 0 ≠ (gglweProductDft (zeroBuf 1 1 4) exA3 exKey3).act 0 := by decide
+
+/-- `dsize = 1`: the result is independent of the previous content (partial: the `dsize = 1` branch) -/
+theorem product_determined_dsize1_partial (r₁ r₂ a : Buf) (key : Key) (h1 : key.dsize = 1)
+    (hs : r₁.n = r₂.n ∧ r₁.cols = r₂.cols ∧ r₁.size = r₂.size) (hw1 : r₁.WF) (hw2 : r₂.WF) (c : Nat) (hc : c < r₁.cols) :
+    (gglweProductDft r₁ a key).act c = (gglweProductDft r₂ a key).act c := by
+  unfold gglweProductDft
+  rw [if_pos h1, if_pos h1]
+  unfold opVmp
+  rw [setFlat_act r₁ hw1 _ c hc, setFlat_act r₂ hw2 _ c (by rw [← hs.2.1]; exact hc), hs.1, hs.2.1, hs.2.2]
+
+example : (gglweProductDft dirty3 exA3 { exKey3 with dsize := 1 }).act 0 =
+    (gglweProductDft (zeroBuf 1 1 4) exA3 { exKey3 with dsize := 1 }).act 0 := by decide
+
 end C03
